@@ -405,6 +405,7 @@ def into_data(val: Convertible, ty: t.Optional[IntoConverter] = None, *,
     """
     Convert `val` of type `ty` into a data interchange format.
     """
+    inferred = ty is None
     if ty is None:
         if isinstance(val, _ScalarType) and custom is None:
             # we can bypass the converter for scalar types
@@ -413,7 +414,8 @@ def into_data(val: Convertible, ty: t.Optional[IntoConverter] = None, *,
 
     try:
         conv = make_converter(ty, ConverterHandlers.make(custom))
-        assert not hasattr(conv.into_data, '_original')  # hack to not use the default into_data implementation here
+        # hack to not use the default into_data implementation here (it would call us back with the same inferred type)
+        assert not inferred or not hasattr(conv.into_data, '_original')
     except (TypeError, AssertionError):
         raise TypeError(f"Can't convert type '{type(val)}' into data.") from None
 
